@@ -111,6 +111,8 @@ func (c EnvFam) ExtraConfig() string {
 		return "[build]\npassunsafeenv = BAR\n" + sb
 	case "both":
 		return "[build]\npassunsafeenv = BAR\npassenv = QUX\n" + sb
+	case "path":
+		return "[build]\npassenv = PATH\n" + sb // the caller's PATH is passed through - and must then be hashed like any passenv variable
 	}
 	return sb
 }
@@ -187,6 +189,9 @@ func (c EnvFam) Hashed(label string) []string {
 	}
 	if c.Cfg == "both" {
 		vs = append(vs, "QUX")
+	}
+	if c.Cfg == "path" {
+		vs = append(vs, "PATH")
 	}
 	return vs
 }
